@@ -409,6 +409,37 @@ def gen_dense_baseline(rng):
     return bytes(out)
 
 
+def gen_prog_case(rng):
+    """one block through decode_mcu_AC_first / decode_mcu_AC_refine: bands 1 <= Ss <= Se <= 63 with boundary
+    values, runs that overshoot Se, EOB runs, blocks with non-zero history"""
+    ss = rng.choice([1, 1, 2, 6, 30, 62, 63, rng.range(1, 63)])
+    se = rng.choice([63, 63, ss, min(63, ss + 1), min(63, ss + rng.below(20)), rng.range(ss, 63)])
+    mode = rng.below(3)
+    if mode == 0:
+        acb = [0] * 16
+        acb[7], acb[8] = 255, 1
+        acv = [0xF1, 0xF0, 0xE1, 0x00, 0x10, 0x20, 0xE0, 0x31, 0x01, 0x11] + [v for v in rng.shuffle(range(256)) if v not in (0xF1, 0xF0, 0xE1, 0x00, 0x10, 0x20, 0xE0, 0x31, 0x01, 0x11)]
+    elif mode == 1:
+        acb = [0, 2, 1, 3, 3, 2, 4, 3, 5, 5, 4, 4, 0, 0, 1, 125]
+        acv = rng.shuffle(range(256))[:162]
+    else:
+        acb = [0, 1, 1, 1, 1, 1, 1, 1, 1, 1, 1, 1, 1, 1, 1, 1]
+        acv = [rng.choice([0xF1, 0xF0, 0x00, 0x01, 0x11, 0x21, 0xE0, 0x10, 0x71, rng.below(256)]) for _ in range(15)]
+    n = rng.range(0, 80)
+    data = bytes(rng.choice([rng.below(8), rng.below(256), 0x55, 0xAA]) for _ in range(n)).replace(b"\xff", b"\xfe")
+    tbl = "%s | %s" % (" ".join(map(str, acb)), " ".join(map(str, acv)))
+    if rng.chance(1, 2):
+        return "pfirst %d %d %d %s | %s" % (ss, se, rng.below(3), tbl, data.hex())
+    al = rng.below(4)
+    blk = [0] * 64
+    dens = rng.choice([0, 5, 30, 80, 100])
+    for i in range(1, 64):
+        if rng.below(100) < dens:
+            blk[i] = rng.choice([1, -1, 2, -2, 3, 4, -4, 8, -8, 100, -100]) << rng.choice([0, al, al + 1])
+    eob = rng.choice([0, 0, 0, 1, 2, 5, 32767])
+    return "prefine %d %d %d %d %s | %s | %s" % (ss, se, al, eob, tbl, " ".join(map(str, blk)), data.hex())
+
+
 def gen_fblk_case(rng):
     """one block through the whole decode_mcu with >= BUFSIZE bytes available (unchecked fast path):
     random data, FF/00-rich data, worst-case codes, a marker early / late / absent"""
@@ -822,6 +853,7 @@ def run(ctx):
     drv = ctx.model_driver()
     exe = ctx.cc("c01", ["c01.c"], "asan", libs=("turbojpeg",))
     blk = ctx.cc("c01blk", ["c01blk.c"], "asan", libs=("jpeg",))
+    ctx.prog_exe = ctx.cc("c01prog", ["c01prog.c"], "asan", libs=("jpeg",))
 
     if ctx.replay:
         r = json.load(open(ctx.replay))
@@ -939,6 +971,8 @@ def run(ctx):
         cases.append((gen_blk_case(rng), "blk"))
     for i in range(ctx.n(600, 12000)):
         cases.append((gen_fblk_case(rng), "fblk"))
+    for i in range(ctx.n(1500, 30000)):
+        cases.append((gen_prog_case(rng), "prog"))
     return run_cases(ctx, drv, exe, blk, cases, oracle_every=1 if not ctx.thorough() else 3)
 
 
@@ -953,7 +987,8 @@ def run_cases(ctx, drv, exe, blk, cases, oracle_every=1):
 
     # ---- model side
     mlines = None
-    all_model_in = [l for l, _ in hdr_cases] + [l for l, _ in blk_cases]
+    prog_cases = [(l, k) for (l, k) in cases if l.startswith("pfirst ") or l.startswith("prefine ")]
+    all_model_in = [l for l, _ in hdr_cases] + [l for l, _ in blk_cases] + [l for l, _ in prog_cases]
     if drv and all_model_in:
         rc, out, err = sh2([drv], input=("\n".join(all_model_in) + "\n").encode(), timeout=3000)
         mlines = out.decode().split("\n")
@@ -1077,9 +1112,30 @@ def run_cases(ctx, drv, exe, blk, cases, oracle_every=1):
                         ctx.broken_tie("correspondence:block", "block model and decode_mcu_slow differ on: %s || model=%s || impl=%s" % (line[:600], mm[:300], res[:300]))
             ctx.count("blk", 1, res[:200])
 
+    # ---- progressive block decoding: real decode_mcu_AC_first / _AC_refine vs the model
+    pdis = 0
+    pstat = {}
+    if prog_cases and getattr(ctx, "prog_exe", None):
+        pimpl = run_lines(ctx, ctx.prog_exe, [l for l, _ in prog_cases], "decode_mcu_AC_first/refine")
+        for j, ((line, kind), res) in enumerate(zip(prog_cases, pimpl)):
+            if res is None:
+                continue
+            key = line.split()[0] + ":" + ("eob" if not res.endswith("eob=0") else "noeob")
+            pstat[key] = pstat.get(key, 0) + 1
+            if mlines is not None:
+                m = mlines[len(hdr_cases) + len(blk_cases) + j]
+                if "TRACE-OUT-OF-RANGE" in m or "MODEL_OUT_OF_FUEL" in m:
+                    ctx.broken_tie("model-invariant", "progressive block model violated its own invariant on %s: %s" % (line[:200], m[:200]))
+                if m != res:
+                    pdis += 1
+                    if pdis <= 2:
+                        ctx.log("progressive block model/impl disagree\n  case: %s\n  model: %s\n  impl : %s" % (line[:300], m[:300], res[:300]))
+                        ctx.broken_tie("correspondence:prog-block", "progressive block model and implementation differ on: %s || model=%s || impl=%s" % (line[:600], m[:300], res[:300]))
+            ctx.count("prog-block", 1, res[:200])
+        ctx.cov["progressive_block_cases"] = pstat
     if mlines is not None:
-        ctx.cov["traces_validated_against_impl"] = len(hdr_cases) + len(blk_cases)
-    ctx.cov["model_impl_disagreements"] = disagree + bdis
+        ctx.cov["traces_validated_against_impl"] = len(hdr_cases) + len(blk_cases) + len(prog_cases)
+    ctx.cov["model_impl_disagreements"] = disagree + bdis + pdis
     ctx.cov["start_decompress_errors_outside_model"] = unmodelled
     ctx.cov["streams_accepted_by_impl"] = accepted
     ctx.cov["implementation_verdicts"] = verdicts
